@@ -97,7 +97,7 @@ Notation erritem := (errkind * list N)%type (only parsing).
 
 Inductive abort := AbInodes | AbCtx | AbFs | AbGi | AbSize.
 Inductive signal := Continue | SkipDir | Abort (a : abort).
-Inductive pcause := PcSlice | PcExtract.
+Inductive pcause := PcExtract.                  (* the only panic left: a panicking extractor *)
 
 (* when the scan context gets cancelled: by the k-th AfterInodeVisited hook (k = 0: before the scan starts),
    or during the j-th Extract call (j >= 1) *)
@@ -106,7 +106,9 @@ Inductive cancel := NoCancel | CancelAtVisit (k : nat) | CancelAtExtract (j : na
 (* ------------------------------------------------------------------ configuration *)
 Record cfg := {
   c_exts : list ext;                           (* Config.Extractors, in order *)
-  c_required : ext -> path -> bool;            (* caller callback FileRequired *)
+  c_required : ext -> path -> bool;            (* caller callback FileRequired: the part that looks at api.Path() *)
+  c_statreq : ext -> option Z;                 (* ... and the part that consults api.Stat(): required only if Stat succeeds and
+                                                  the size is at least this (None: Stat is not consulted) *)
   c_extract : ext -> path -> xres;             (* caller callback Extract *)
   c_pat : N -> path -> bool -> bool;           (* go-git: pattern file, path relative to its domain, isDir *)
   c_skip_list : list path;                     (* DirsToSkip *)
@@ -138,11 +140,14 @@ Definition gi_match_stack (c : cfg) (ms : list (option matcher)) (p : path) (isd
 Inductive gires := GiErr | GiOk (m : option matcher).
 
 (* internal.ParseDirForGitignore(fs, p) where ch are the entries of directory p.
-   pathTokens := strings.Split(dirPath, "/"), i.e. the model path itself -- ["."] for the root. *)
+   pathTokens := strings.Split(dirPath, "/"), i.e. the model path itself -- except for the scan root ".",
+   whose pattern domain is empty (patterns apply to every path below the root). *)
+Definition gi_domain (p : path) : path := if ln_eqb p [DOT] then [] else p.
+
 Definition parse_dir_gi (p : path) (ch : list node) : gires :=
   match find_child GI ch with
   | None => GiOk None
-  | Some (File _ _ _ data ff) => if ff_open ff then GiErr else GiOk (Some (p, data))
+  | Some (File _ _ _ data ff) => if ff_open ff then GiErr else GiOk (Some (gi_domain p, data))
   | Some (Dir _ _ df) => if df_open df then GiErr else GiOk None   (* reading a directory yields no line *)
   end.
 
@@ -202,10 +207,16 @@ Definition should_skip_dir (c : cfg) (ms : list (option matcher)) (p : path) : b
   if mem_path p (c_skip_list c) then true
   else if c_ignore_subdirs c && negb (mem_path p (c_paths c)) then true
   else if c_gitignore c && gi_match_stack c ms p true then true
-  else match c_re c with
-       | Some re => re p                       (* returns: the glob below is not consulted *)
-       | None => match c_glob c with Some g => g p | None => false end
-       end.
+  else if match c_re c with Some re => re p | None => false end then true
+  else match c_glob c with Some g => g p | None => false end.
+
+(* FileRequired(wc.fileAPI): the lazy Stat of the FileAPI is fs.Stat(wc.fs, path) of the file being visited *)
+Definition req (c : cfg) (e : ext) (p : path) (size : Z) (ff : ffault) : bool :=
+  c_required c e p &&
+  match c_statreq c e with
+  | None => true
+  | Some thr => negb (ff_stat ff) && (thr <=? size)%Z
+  end.
 
 (* ------------------------------------------------------------------ runExtractor *)
 Definition run_extractor (c : cfg) (e : ext) (p : path) (ff : ffault) (st : state) : wres :=
@@ -227,9 +238,10 @@ Fixpoint run_exts (c : cfg) (p : path) (size : Z) (ff : ffault) (es : list ext) 
   | [] => WOk st Continue
   | e :: es' =>
       let st0 := add_event st (EReq e p) in
-      if c_required c e p then
+      if req c e p size ff then
         if (0 <? c_max_size c)%Z && negb checked then
-          if ff_stat ff then WOk st0 (Abort AbSize)           (* "failed to get file size": returned from handleFile *)
+          if ff_stat ff then                                  (* "failed to get file size" *)
+            (if c_fatal c then WOk st0 (Abort AbSize) else WOk st0 Continue)   (* fatal only on request; else the file is skipped *)
           else if (c_max_size c <? size)%Z then WOk st0 Continue     (* file skipped for every extractor *)
           else match run_extractor c e p ff st0 with
                | WOk st1 _ => run_exts c p size ff es' true st1
@@ -257,9 +269,10 @@ Definition hf_prelude (c : cfg) (p : path) (fserr : bool) (st : state) : pre_res
 
 (* d.Type().IsDir() branch *)
 Definition hf_dir (c : cfg) (p : path) (ch : list node) (st2 : state) : wres :=
+  let skip := should_skip_dir c (s_stack st2) p in           (* decided by the ancestors' rules only *)
   if c_gitignore c then
     let pushed :=
-      if should_skip_dir c (s_stack st2) p then Some None     (* EmptyGitignore *)
+      if skip then Some None                                  (* EmptyGitignore *)
       else match parse_dir_gi p ch with
            | GiErr => None                                       (* return err: nothing appended *)
            | GiOk m => Some m
@@ -268,9 +281,9 @@ Definition hf_dir (c : cfg) (p : path) (ch : list node) (st2 : state) : wres :=
     | None => WOk st2 (Abort AbGi)
     | Some m =>
         let st3 := set_stack st2 (m :: s_stack st2) in
-        if should_skip_dir c (s_stack st3) p then WOk st3 SkipDir else WOk st3 Continue
+        if skip then WOk st3 SkipDir else WOk st3 Continue
     end
-  else if should_skip_dir c (s_stack st2) p then WOk st2 SkipDir else WOk st2 Continue.
+  else if skip then WOk st2 SkipDir else WOk st2 Continue.
 
 (* the rest of handleFile for a non-directory *)
 Definition hf_file (c : cfg) (p : path) (k : kind) (size : Z) (ff : ffault) (st2 : state) : wres :=
@@ -289,14 +302,15 @@ Definition handle_file (c : cfg) (p : path) (nd : node) (fserr : bool) (st : sta
       end
   end.
 
-(* postHandleFile, run by `defer`: wc.gitignores[:len-1] panics on an empty slice *)
+(* postHandleFile, run by `defer`: pops the entry of this directory; nothing to pop when handleFile returned
+   before pushing (inode limit, cancelled context, unreadable .gitignore) and the stack is empty *)
 Definition post (c : cfg) (nd : node) (r : wres) : wres :=
   match r with
   | WPanic _ _ => r
   | WOk st sg =>
       if c_gitignore c && is_dir nd then
         match s_stack st with
-        | [] => WPanic st PcSlice
+        | [] => r
         | _ :: ms => WOk (set_stack st ms) sg
         end
       else r
@@ -373,7 +387,13 @@ Fixpoint parse_dirs (t : node) (ds : list path) (acc : list (option matcher)) : 
       end
   end.
 Definition parse_parent_gitignores (t : node) (p : path) : option (list (option matcher)) :=
-  parse_dirs t (prefixes_from [] p) [].
+  if ln_eqb p [DOT] then Some []
+  else
+    (* the scan root is a parent of every other directory *)
+    match (match t with Dir _ ch _ => parse_dir_gi [DOT] ch | File _ _ _ _ _ => GiOk None end) with
+    | GiErr => None
+    | GiOk m => parse_dirs t (prefixes_from [] p) [m]
+    end.
 
 Fixpoint walk_individual_paths (c : cfg) (t : node) (ps : list path) (st : state) : wres :=
   match ps with
@@ -442,15 +462,15 @@ Inductive rres :=
 | ROk (inv : list tpkg) (sts : list (ext * status)) (st : state).
 
 (* the root loop of filesystem.Run: one shared walk context; RunFS returns the context's cumulative
-   inventory and statuses built from the cumulative maps; Run appends both per root *)
+   inventory and statuses built from the cumulative maps; Run returns what the last root returned *)
 Fixpoint run_roots (c : cfg) (roots : list node) (st : state) (inv : list tpkg) (sts : list (ext * status)) : rres :=
   match roots with
   | [] => ROk inv sts st
   | r :: rs =>
       match run_fs c r st with
       | WPanic st' pc => RPanic st' pc
-      | WOk st' (Abort a) => RErr inv a st'
-      | WOk st' _ => run_roots c rs st' (inv ++ s_inv st') (sts ++ statuses c st')
+      | WOk st' (Abort a) => RErr (s_inv st') a st'         (* RunFS returns the context's inventory also on error *)
+      | WOk st' _ => run_roots c rs st' (s_inv st') (statuses c st')
       end
   end.
 
@@ -498,12 +518,20 @@ Definition sort_locs (x : tpkg) : tpkg :=
 Definition sort_packages (inv : list tpkg) : list tpkg := isort cmp_packages (map sort_locs inv).
 Definition sort_statuses (sts : list (ext * status)) : list (ext * status) := isort cmp_status sts.
 
-(* ------------------------------------------------------------------ scalibr.Scan (filesystem part) *)
-Record scan_result := { sr_failed : bool; sr_inv : list tpkg; sr_status : list (ext * status) }.
+(* findings: (Adv.ID.Publisher, Adv.ID.Reference, Extra); cmpFindings orders by reference, then Extra *)
+Record finding := { f_pub : bytes; f_ref : bytes; f_extra : bytes }.
+Definition cmp_findings (a b : finding) : comparison :=
+  cmp_or (bcmp (f_ref a) (f_ref b)) (bcmp (f_extra a) (f_extra b)).
+Definition sort_findings (l : list finding) : list finding := isort cmp_findings l.
+
+(* ------------------------------------------------------------------ scalibr.Scan (filesystem extraction + detectors) *)
+Record scan_result := { sr_failed : bool; sr_inv : list tpkg; sr_status : list (ext * status); sr_findings : list finding }.
+(* a detector: its name and the findings its Scan returns (caller callback; never an error here) *)
+Notation detector := (list N * list finding)%type (only parsing).
 Inductive scan_outcome := ScanPanic (pc : pcause) | ScanDone (r : scan_result).
 
-Definition scan (c : cfg) (roots : list node) : scan_outcome :=
-  let failed := {| sr_failed := true; sr_inv := []; sr_status := [] |} in
+Definition scan (c : cfg) (dets : list detector) (roots : list node) : scan_outcome :=
+  let failed := {| sr_failed := true; sr_inv := []; sr_status := []; sr_findings := [] |} in
   match roots with
   | [] => ScanDone failed                                   (* errNoScanRoot *)
   | _ =>
@@ -512,8 +540,20 @@ Definition scan (c : cfg) (roots : list node) : scan_outcome :=
       else match run c roots with
            | RPanic _ pc => ScanPanic pc
            | RErr _ _ _ => ScanDone failed                  (* sro.Inventory is not set on error *)
-           | ROk inv sts _ =>
-               ScanDone {| sr_failed := false; sr_inv := sort_packages inv; sr_status := sort_statuses sts |}
+           | ROk inv sts st =>
+               (* no standalone extractor; detector.Run checks the context before every detector *)
+               match dets with
+               | _ :: _ =>
+                   if cancelled c st
+                   then ScanDone {| sr_failed := true; sr_inv := sort_packages inv; sr_status := sort_statuses sts;
+                                    sr_findings := [] |}
+                   else ScanDone {| sr_failed := false; sr_inv := sort_packages inv;
+                                    sr_status := sort_statuses (sts ++ map (fun d => (fst d, StSucceeded)) dets);
+                                    sr_findings := sort_findings (flat_map snd dets) |}
+               | [] =>
+                   ScanDone {| sr_failed := false; sr_inv := sort_packages inv; sr_status := sort_statuses sts;
+                               sr_findings := [] |}
+               end
            end
   end.
 
